@@ -567,7 +567,14 @@ func (fx *fexec) indexAddr(x *ssa.IndexAddr, st *State) Val {
 	case *types.Slice:
 		fx.panicPoint(st, or(lt(idx, intLit(0)), ge(idx, sLen(base.T))), "bounds", "index "+x.Index.Name()+" of "+x.X.Name(), fx.posOf(x))
 		comp, srt := vc.elemComp(u.Elem())
-		return Val{Ty: vc.resolve(x.Type()), Loc: &Loc{Root: "E", Comp: comp, Sort: srt, Ref: sArr(base.T), Idx: vc.define("ix", add(sOff(base.T), idx)), Ty: u.Elem()}}
+		// a compound index is named by a constant (not a macro) so that quantified facts
+		// about s[i] can be instantiated by E-matching on (select (select E arr) (+ off i))
+		rel := idx
+		if _, isConst := constOf(idx); !isConst && strings.ContainsAny(idx.S, " (") {
+			rel = vc.fresh("ix", SInt)
+			vc.assert(eq(rel, idx))
+		}
+		return Val{Ty: vc.resolve(x.Type()), Loc: &Loc{Root: "E", Comp: comp, Sort: srt, Ref: sArr(base.T), Idx: add(sOff(base.T), rel), Ty: u.Elem()}}
 	case *types.Pointer:
 		at := vc.under(u.Elem()).(*types.Array)
 		fx.panicPoint(st, or(lt(idx, intLit(0)), ge(idx, intLit(at.Len()))), "bounds", "array index "+x.Index.Name(), fx.posOf(x))
